@@ -256,6 +256,7 @@ class Scn:
         f = parser().parse(text, m.File, auto_claim_comments=False)
         self.root = f
         self.raw = f.raw_directives_with_comments
+        self.owner, self.attr = f, 'raw_directives_with_comments'
         self.raw.claim_interleaving_comments()
         from autobean_refactor.models.generated.file import Directive
         from typing import get_args
@@ -277,6 +278,7 @@ class Scn:
     def build_meta(self, m):
         t = self._txn(m, self.layout, [1])
         self.raw = t.raw_meta_with_comments
+        self.owner, self.attr = t, 'raw_meta_with_comments'
         self.raw.claim_interleaving_comments()
         self.tagmap = [(1, m.MetaItem)]
         self.raw_tags = [0, 1]
@@ -288,6 +290,7 @@ class Scn:
     def build_postings(self, m):
         t = self._txn(m, [], self.layout)
         self.raw = t.raw_postings_with_comments
+        self.owner, self.attr = t, 'raw_postings_with_comments'
         self.raw.claim_interleaving_comments()
         self.tagmap = [(1, m.Posting)]
         self.raw_tags = [0, 1]
@@ -297,6 +300,7 @@ class Scn:
         s = ''.join(f' #t{i % 2}' if t == 1 else f' ^l{i % 2}' for i, t in enumerate(self.layout))
         t = self._txn(m, [], [1], s)
         self.raw = t.raw_tags_links
+        self.owner, self.attr = t, 'raw_tags_links'
         self.tagmap = [(1, m.Tag), (2, m.Link)]
         self.raw_tags = [1, 2]
         self.view_specs = {
@@ -310,6 +314,7 @@ class Scn:
         self.root = f
         o = f.raw_directives[0]
         self.raw = o.raw_currencies
+        self.owner, self.attr = o, 'raw_currencies'
         self.tagmap = [(1, m.Currency)]
         self.raw_tags = [1]
         self.view_specs = {'currencies': dict(get=lambda: o.currencies, tags=[1], kind='KString', mapping=None)}
@@ -321,10 +326,16 @@ class Scn:
         self.root = f
         c = f.raw_directives[0]
         self.raw = c.raw_values
+        self.owner, self.attr = c, 'raw_values'
         self.tagmap = [(1, m.EscapedString), (2, m.Date), (3, m.Bool), (4, m.NumberExpr), (5, m.Account),
                        (6, m.Amount)]
         self.raw_tags = [1, 2, 3, 4, 5, 6]
         self.view_specs = {'values': dict(get=lambda: c.values, tags=[1, 2, 3, 4, 5, 6], kind='KCustom', mapping=None)}
+
+    def assign(self, wrapper: Any) -> None:
+        """model.raw_xs = wrapper (whole-field reassignment); the assigned wrapper is the raw list from now on"""
+        setattr(self.owner, self.attr, wrapper)
+        self.raw = getattr(self.owner, self.attr)
 
     # --- values --------------------------------------------------------------------------------
     def make_raw(self, spec: dict) -> Any:
@@ -462,10 +473,15 @@ class Gen:
             return ['reg', rng.choice(unreg)]
         if not registered or rng.random() < 0.45:
             k = rng.choice(['r_set', 'r_set', 'r_set', 'r_del', 'r_del', 'r_insert', 'r_insert', 'r_append',
-                            'r_extend', 'r_pop', 'r_pop', 'r_drop', 'r_clear', 'r_claim', 'r_unclaim'])
+                            'r_extend', 'r_pop', 'r_pop', 'r_drop', 'r_clear', 'r_claim', 'r_unclaim', 'r_assign'])
+            if k == 'r_assign':
+                if rng.random() < 0.5:
+                    return [k, gen_layout(rng, scn.name)]
+                k = 'r_append'
             if k == 'r_clear' and rng.random() < 0.7:
                 k = 'r_insert'
-            if k in ('r_claim', 'r_unclaim') and 0 not in scn.raw_tags:
+            if k in ('r_claim', 'r_unclaim') and (0 not in scn.raw_tags
+                                                  or not hasattr(scn.raw, 'claim_interleaving_comments')):
                 k = 'r_set'
             if k == 'r_set':
                 idx = gen_idx(rng, nraw)
@@ -649,9 +665,45 @@ class Runner:
     def fail(self, sig: str, what: str):
         self.failures.append({'sig': sig, 'what': what, 'at': self.executed})
 
+    def step_assign(self, op: list) -> bool:
+        """model.raw_xs = deepcopy(<same field of another parsed model>) after views were read; afterwards every
+        view that had been read is read again from the model and must show the new raw list."""
+        import copy
+        scn = self.scn
+        donor = Scn(scn.name, op[1])
+        new = copy.deepcopy(donor.raw)
+        expected = list(new._repeated.items)
+        old_registered = list(self.registered)
+        self.stale_views = getattr(self, 'stale_views', []) + list(self.views.values())   # kept alive
+        try:
+            scn.assign(new)
+        except Exception as e:  # noqa: BLE001
+            self.foreign = f'{type(e).__name__} in {traceback.extract_tb(e.__traceback__)[-1].name}'
+            return False
+        after = self.items()
+        self.registered, self.views = [], {}
+        self.steps.append((f'(RAssign {self.EL(scn.elem(x) for x in after)})',
+                           f'(mkobs 0 [] {self.EL(scn.elem(x) for x in after)} [])'))
+        self.classes.append('r_assign')
+        if scn.raw is not new or not (len(after) == len(expected) and all(a is b for a, b in zip(after, expected))):
+            self.fail('C10:list-semantics', 'r_assign: the raw list is not the assigned wrapper / its elements')
+            return False
+        self.sig_view = 'C10:view-stale-after-wrapper-reassignment'
+        try:
+            for v in old_registered:
+                if not self.step(['reg', v]):
+                    return False
+        finally:
+            self.sig_view = 'C10:view-differs-from-filtered-raw'
+        return True
+
+    sig_view = 'C10:view-differs-from-filtered-raw'
+
     def step(self, op: list) -> bool:
         scn = self.scn
         kind = op[0]
+        if kind == 'r_assign':
+            return self.step_assign(op)
         before = self.items()
         nraw = len(before)
         vname = op[1] if kind[0] in 'vm' else None
@@ -708,14 +760,14 @@ class Runner:
                 n = len(w)
                 singles = [w[i] for i in range(-len(F), len(F))] if n == len(F) else None
             except Exception as e:  # noqa: BLE001
-                self.fail('C10:view-differs-from-filtered-raw',
+                self.fail(self.sig_view,
                           f'reading view {scn.name}.{v} raised {type(e).__name__} after {cls} '
                           f'(_raw_indexes={list(w._raw_indexes)}, raw length {len(items)})')
                 return False
             positions = [i for i, x in enumerate(items) if scn.tag_of(x) in scn.view_specs[v]['tags']]
             if n != len(F) or not self.same_list(v, got, F) or list(w._raw_indexes) != positions or \
                     not self.same_list(v, singles, [F[i] for i in range(-len(F), len(F))]):
-                self.fail('C10:view-differs-from-filtered-raw',
+                self.fail(self.sig_view,
                           f'view {scn.name}.{v} differs from the raw list filtered at that moment after {cls}: '
                           f'_raw_indexes={list(w._raw_indexes)} but matching positions are '
                           f'{[i for i, x in enumerate(items) if scn.tag_of(x) in scn.view_specs[v]["tags"]]}')
@@ -1152,7 +1204,8 @@ def run(ctx: common.Ctx):
     ctx.rule = ('seeded interleavings (6..24 steps) of every mutator of the raw list and of every view (int, negative, '
                 'out-of-range, slice, extended slice, step 0; mapping keys present/absent/duplicated) over six '
                 'scenarios (file directives, transaction meta with raw_meta+meta, postings, tags+links, open '
-                'currencies, custom values) with 0..7 initial elements and interleaved standalone comments, views '
+                'currencies, custom values) with 0..7 initial elements and interleaved standalone comments, whole-field '
+                'reassignment (model.raw_xs = deepcopy of another model\'s field) after views were read, views '
                 'registered at random moments; a case is non-trivial when at least one view is registered and at '
                 'least 3 steps ran; distinct by (scenario, layout, op classes, views)')
     ctx.assumptions += [
